@@ -73,10 +73,17 @@ theorem vStep_shape {s s' : VSt} {e : Ev} (h : vStep s e = .ok s') :
               · cases h; exact ⟨th, _, hth, hp, rfl, rfl, rfl, rfl, .inr ⟨_, _, rfl⟩⟩
               · cases h; exact ⟨th, _, hth, hp, rfl, rfl, rfl, rfl, .inl rfl⟩
             · split at h
-              · rw [guard_ok] at h; obtain ⟨_, h⟩ := h
+              · -- reset: emptiness pre-check under the read lock
                 rw [guard_ok] at h; obtain ⟨_, h⟩ := h
-                cases h; exact ⟨th, _, hth, hp, rfl, rfl, rfl, rfl, .inr ⟨_, _, rfl⟩⟩
-              · cases h
+                rw [guard_ok] at h; obtain ⟨_, h⟩ := h
+                split at h
+                · cases h; exact ⟨th, _, hth, hp, rfl, rfl, rfl, rfl, .inr ⟨_, _, rfl⟩⟩
+                · cases h; exact ⟨th, _, hth, hp, rfl, rfl, rfl, rfl, .inl rfl⟩
+              · split at h
+                · rw [guard_ok] at h; obtain ⟨_, h⟩ := h
+                  rw [guard_ok] at h; obtain ⟨_, h⟩ := h
+                  cases h; exact ⟨th, _, hth, hp, rfl, rfl, rfl, rfl, .inr ⟨_, _, rfl⟩⟩
+                · cases h
       · -- rheld
         rw [guard_ok] at h; obtain ⟨_, h⟩ := h
         split at h
@@ -375,5 +382,57 @@ def rmGapTrace : List Item :=
    .ev ⟨0, "X", "lk", "", 0, 0, 0, true⟩, .ev ⟨0, "x", "lk", "", 0, 0, 0, true⟩,
    .ret 0 "1" "err"]
 
+/-- closed facts about the literals of the runs below -/
+theorem splitOn_with_b : "with:b".splitOn ":" = ["with", "b"] := by split_on_lit
+theorem opName_with_b : opName "with:b" = "with" := by simp [opName, splitOn_with_b]
+theorem opArg_with_b : opArg "with:b" = "b" := by simp [opArg, splitOn_with_b]
+
+/-- one thread, `reset` on the empty vector: the map is inspected under the READ lock, it is empty, the
+    call returns - no write lock is taken -/
+def resetEmptyTrace : List Item :=
+  [.call 0 "0" "reset",
+   .ev ⟨0, "R", "lk", "", 0, 0, 0, true⟩, .ev ⟨0, "r", "lk", "", 0, 0, 0, true⟩,
+   .ret 0 "0" ""]
+
+/-- one thread: `with:a` (miss under the read lock, get-or-create under the write lock); then `reset`:
+    the read-locked check finds the map non-empty, the read lock is released, the map is cleared under
+    the write lock, the call returns -/
+def resetNonEmptyTrace : List Item :=
+  [.call 0 "0" "with:a",
+   .ev ⟨0, "R", "lk", "", 0, 0, 0, true⟩, .ev ⟨0, "r", "lk", "", 0, 0, 0, true⟩,
+   .ev ⟨0, "X", "lk", "", 0, 0, 0, true⟩, .ev ⟨0, "x", "lk", "", 0, 0, 0, true⟩,
+   .ret 0 "0" "h",
+   .call 0 "1" "reset",
+   .ev ⟨0, "R", "lk", "", 0, 0, 0, true⟩, .ev ⟨0, "r", "lk", "", 0, 0, 0, true⟩,
+   .ev ⟨0, "X", "lk", "", 0, 0, 0, true⟩, .ev ⟨0, "x", "lk", "", 0, 0, 0, true⟩,
+   .ret 0 "1" ""]
+
+/-- thread 0 as in `resetNonEmptyTrace`, but thread 1 runs `with:b` in the gap between thread 0's
+    read-locked check (map non-empty) and its write-locked section: the reset clears whatever the map
+    holds when the write lock is taken - both children -/
+def resetGapTrace : List Item :=
+  [.call 0 "0" "with:a",
+   .ev ⟨0, "R", "lk", "", 0, 0, 0, true⟩, .ev ⟨0, "r", "lk", "", 0, 0, 0, true⟩,
+   .ev ⟨0, "X", "lk", "", 0, 0, 0, true⟩, .ev ⟨0, "x", "lk", "", 0, 0, 0, true⟩,
+   .ret 0 "0" "h",
+   .call 0 "1" "reset",
+   .ev ⟨0, "R", "lk", "", 0, 0, 0, true⟩, .ev ⟨0, "r", "lk", "", 0, 0, 0, true⟩,
+   .call 1 "0" "with:b",
+   .ev ⟨1, "R", "lk", "", 0, 0, 0, true⟩, .ev ⟨1, "r", "lk", "", 0, 0, 0, true⟩,
+   .ev ⟨1, "X", "lk", "", 0, 0, 0, true⟩, .ev ⟨1, "x", "lk", "", 0, 0, 0, true⟩,
+   .ret 1 "0" "h",
+   .ev ⟨0, "X", "lk", "", 0, 0, 0, true⟩, .ev ⟨0, "x", "lk", "", 0, 0, 0, true⟩,
+   .ret 0 "1" ""]
+
+/-- NOT accepted: as `resetNonEmptyTrace`, but the `reset` returns right after its read-locked check
+    although the map was not empty (the write-locked section is skipped) -/
+def resetSkippedTrace : List Item :=
+  [.call 0 "0" "with:a",
+   .ev ⟨0, "R", "lk", "", 0, 0, 0, true⟩, .ev ⟨0, "r", "lk", "", 0, 0, 0, true⟩,
+   .ev ⟨0, "X", "lk", "", 0, 0, 0, true⟩, .ev ⟨0, "x", "lk", "", 0, 0, 0, true⟩,
+   .ret 0 "0" "h",
+   .call 0 "1" "reset",
+   .ev ⟨0, "R", "lk", "", 0, 0, 0, true⟩, .ev ⟨0, "r", "lk", "", 0, 0, 0, true⟩,
+   .ret 0 "1" ""]
 
 end Prom.C10
